@@ -259,6 +259,71 @@ def int_weights_case(rng, kind=None, scalar=False):
     return c
 
 
+POW2_UNITS = [-60, -40, -30, -27, -20, -10, 10, 40]
+DEC_UNITS = [1e-5, 1e-9, 1e-11]
+
+
+def unit_variants(rng, c=None):
+    """UNIT stream: one dyadic case and copies of it whose facts and weights are multiplied, independently, by exact powers
+    of two 2**-60 .. 2**40 (still exact in binary64: compared EXACTLY by the oracle and in Coq; the metamorphic law - sum
+    scales by both factors, mean by the fact factor, weighted count / valid_count by the weight factor, same missing cells -
+    is checked on the real outputs) or by the decimal units 1e-5 / 1e-9 / 1e-11 (inexact: tolerance relative to the grand total
+    of the scaled terms, no absolute floor).  Weight units below 2**-7 are not used for the mean (valid weight totals below the
+    code's own 1e-8 isclose threshold are outside the property).  -> [(case, fact factor, weight factor)], base first."""
+    if c is None:
+        c = gen_case(rng, kind=rng.choice(["sum", "sum", "mean", "mean", "count", "valid_count"]), nd=rng.choice([1, 1, 2, 2, 3]), N=rng.choice([3, 4, 5, 6, 8]))
+        if c["kind"] in ("count", "valid_count") or rng.random() < 0.6:
+            c["wkind"] = rng.choice(["arr", "pair", "scalar"])
+            if c["wkind"] == "scalar":
+                c["w"], c["wvalid"], c["whidden"] = rng.choice(W_POOL[2:]), True, "nan"
+            else:
+                c["w"] = [rng.choice(W_POOL) for _ in range(c["N"])]
+                c["wvalid"] = [rng.random() >= 0.15 for _ in range(c["N"])]
+                c["whidden"] = rng.choice(HIDDEN)
+        if c["fact"] is not None:
+            c["fdtype"] = "f8"
+            if c["fhidden"] not in HIDDEN:
+                c["fhidden"] = "nan"
+    c["unit"] = [0, 0]
+    out = [(c, Fr(1), Fr(1))]
+    has_f = c["fact"] is not None and c["kind"] in ("sum", "mean")
+    has_w = c["wkind"] != "none"
+    for _ in range(3):
+        dec = rng.random() < 0.3
+        if dec:
+            ff = Fr(rng.choice(DEC_UNITS)) if has_f and rng.random() < 0.8 else Fr(1)
+            wf = Fr(rng.choice(DEC_UNITS)) if has_w and c["kind"] != "mean" and rng.random() < 0.5 else Fr(1)
+        else:
+            ff = Fr(2) ** rng.choice(POW2_UNITS) if has_f and rng.random() < 0.8 else Fr(1)
+            wf = Fr(2) ** rng.choice([k for k in POW2_UNITS if c["kind"] != "mean" or k >= -7]) if has_w and rng.random() < 0.6 else Fr(1)
+        if ff == 1 and wf == 1:
+            continue
+        d = dict(c)
+        if ff != 1:
+            d["fact"] = [[Fr(float(v) * float(ff)) for v in row] for row in c["fact"]]
+        if wf != 1:
+            d["w"] = Fr(float(c["w"]) * float(wf)) if c["wkind"].startswith("scalar") else [Fr(float(v) * float(wf)) for v in c["w"]]
+        if dec:
+            d["float_stream"] = True
+        d["unit"] = [float(ff), float(wf)]
+        out.append((d, ff, wf))
+    return out
+
+
+def unit_law(c, base_cells, cells, ff, wf):
+    """power-of-two units on the real code: the output scales exactly (mean: to rounding), the missing cells are the same"""
+    if base_cells is None or cells is None or len(base_cells) != len(cells):
+        return None
+    f = {"sum": ff * wf, "mean": ff, "count": wf, "valid_count": wf}[c["kind"]]
+    for i, (g0, g1) in enumerate(zip(base_cells, cells)):
+        for k, (x, y) in enumerate(zip(g0, g1)):
+            if (x is None) != (y is None):
+                return "cell %d col %d: %s in unit 1 but %s in units (fact x %s, weight x %s)" % (i, k, "missing" if x is None else "a value", "missing" if y is None else "a value", float(ff), float(wf))
+            if x is not None and abs(x * f - y) > (abs(x * f) * Fr(1, 2 ** 44) if c["kind"] == "mean" else 0):
+                return "cell %d col %d: value %r in unit 1 but %r in units (fact x %s, weight x %s), expected %r" % (i, k, float(x), float(y), float(ff), float(wf), float(x * f))
+    return None
+
+
 def scale_case(rng, kind=None, decimal=False):
     """'Scale' stream: N in 30..120 rows, 2-3 dimensions from cubelib.gen_lopsided (one dominant category of 60-90 % of
     the rows, a filler, rare categories of 1-3 rows whose last row often lies in the next dimension's dominant category;
@@ -754,15 +819,20 @@ def partial_counts(c, shape=None):
 
 
 def grand_total(c):
+    """The magnitude the tolerance of the inexact streams is relative to - NO absolute floor (a floor hides errors in
+    data measured in small units): sum -> sum of |weight * fact| over all rows and columns; mean -> sum of |fact| (a mean
+    does not scale with the weights); count / valid_count -> sum of |weight| (the row count when unweighted)."""
+    def wt(r):
+        return Fr(1) if c["wkind"] == "none" else (abs(Fr(c["w"])) if c["wkind"].startswith("scalar") else abs(c["w"][r]))
     tot = Fr(0)
     if c["fact"] is not None and c["kind"] in ("sum", "mean"):
         for r in range(c["N"]):
             for v in c["fact"][r]:
-                tot += abs(v) * (1 if c["wkind"] == "none" else (abs(Fr(c["w"])) if c["wkind"].startswith("scalar") else abs(c["w"][r])))
+                tot += abs(v) * (wt(r) if c["kind"] == "sum" else 1)
     else:
         for r in range(c["N"]):
-            tot += 1 if c["wkind"] == "none" else (abs(Fr(c["w"])) if c["wkind"].startswith("scalar") else abs(c["w"][r]))
-    return max(tot, Fr(1))
+            tot += wt(r)
+    return tot
 
 
 def expected_report(c, fmt, shape=None):
@@ -779,7 +849,8 @@ def expected_report(c, fmt, shape=None):
 
 def compare(c, got, want, exact=True):
     """Property-level comparison: missing marks exactly, values exactly (dyadic inputs; the mean is
-    one correctly rounded division away) or within 1e-9 of the grand total.  Returns None or text."""
+    one correctly rounded division away: RELATIVE 2^-45) or within 1e-9 of the grand total (grand_total: no absolute
+    floor, plus a few ulps of the expected value).  Returns None or text."""
     tol = Fr(1, 10 ** 9) * grand_total(c)
     if got is None:
         return "no output"
@@ -794,7 +865,7 @@ def compare(c, got, want, exact=True):
             if exact and c["kind"] != "mean":
                 if x != y:
                     return "cell %d col %d: value %s, expected %s" % (i, k, x, y)
-            elif abs(x - y) > (tol if not exact else max(abs(y), 1) * Fr(1, 2 ** 45)):
+            elif abs(x - y) > (max(tol, abs(y) * Fr(1, 2 ** 48)) if not exact else abs(y) * Fr(1, 2 ** 45)):
                 return "cell %d col %d: value %s, expected %s" % (i, k, float(x), float(y))
     return None
 
